@@ -146,26 +146,107 @@ Fixpoint contig (d : dir) (next : N) (tr : list obs) : bool :=
   | _ :: t => contig d next t
   end.
 
+(* the checks on one relay's finished replay: state s, full run (hidden sends inserted), its observations tr *)
+Definition final_ok (m : mode) (tr : list obs) (complete : bool) (tx rx sul sud sdl sdd : N) (s : st) (full : list act) : bool :=
+  contig Up 0 tr && contig Down 0 tr &&
+  monitor m full &&
+  (sTx s =? tx) && (sRx s =? rx) &&
+  (blen (snkb Up full) =? sul) && ((2 * SmallChunk <? sul) || (dg32 (snkb Up full) =? sud)) &&
+  (blen (snkb Down full) =? sdl) && ((2 * SmallChunk <? sdl) || (dg32 (snkb Down full) =? sdd)) &&
+  (* a complete log ends with the parent done and both loops finished or about to send *)
+  (negb complete ||
+   (closeconn_ok full &&
+    match par s with QDone => true | _ => false end &&
+    match pU s with PRet _ | PDone _ => true | _ => false end &&
+    match pD s with PRet _ | PDone _ => true | _ => false end)).
+
+(* ---- cross-relay runs: one linearised log of several relays that go through the same copyBufPool.
+   XO r buf o: observation o of relay r; for Read and Write, buf = 1 + the identity of the memory the code handed to
+   the fake (0 for the other observations).  Every relay is replayed against its own copy of the one-relay LTS, all
+   in step with the merged log (so "the Write carries the chunk this loop just read" is enforced for every relay),
+   and at every Read / Write the ownership invariant of model/C06_Pool.v (C06_pool_buffer_has_one_owner) is checked on
+   the model states: a loop keeps the buffer it started with, and no OTHER loop that is still running (at Read,
+   LogTraffic or Write according to its relay's replay) has been seen with that memory. *)
+Inductive xobs := XO (r : N) (buf : N) (o : obs).
+Inductive xrel := XR (m : mode) (tx rx sul sud sdl sdd : N).
+
+Record rrun := mkRR { rg : ghost; rs : st; racc : list act }.
+
+Definition obs_mem (o : obs) : option dir :=
+  match o with
+  | ORead d _ _ _ _ _ _ | OWrite d _ _ _ _ | OWriteBig d _ _ _ _ => Some d
+  | _ => None
+  end.
+
+Definition pc_running (p : pc) : bool := match p with PRead | PLog _ _ | PWrite _ _ => true | _ => false end.
+
+(* owners: (relay, direction, buffer) for every loop that has been seen with a buffer *)
+Definition own_ok (ws : list rrun) (owners : list (nat * dir * N)) (r : nat) (d : dir) (buf : N) : bool :=
+  forallb (fun e => let '(r', d', b') := e in
+             if Nat.eqb r r' && dir_eqb d d' then b' =? buf
+             else negb (b' =? buf) ||
+                  match nth_error ws r' with Some w => negb (pc_running (pcof (rs w) d')) | None => false end) owners.
+
+Definition own_set (owners : list (nat * dir * N)) (r : nat) (d : dir) (buf : N) : list (nat * dir * N) :=
+  (r, d, buf) :: filter (fun e => let '(r', d', _) := e in negb (Nat.eqb r r' && dir_eqb d d')) owners.
+
+Fixpoint set_nth {A} (i : nat) (x : A) (l : list A) : list A :=
+  match l, i with
+  | [], _ => []
+  | _ :: t, O => x :: t
+  | h :: t, S k => h :: set_nth k x t
+  end.
+
+Fixpoint xreplay (ws : list rrun) (owners : list (nat * dir * N)) (tr : list xobs) : option (list rrun) :=
+  match tr with
+  | [] => Some ws
+  | XO rN buf o :: t =>
+      let r := N.to_nat rN in
+      match nth_error ws r with
+      | None => None
+      | Some w =>
+          match oact (rg w) (rs w) o with
+          | [] => None
+          | l =>
+              match exec (rs w) l with
+              | None => None
+              | Some s' =>
+                  let ws' := set_nth r (mkRR (gset (rg w) o) s' (rev_append l (racc w))) ws in
+                  match obs_mem o with
+                  | Some d => if own_ok ws owners r d buf then xreplay ws' (own_set owners r d buf) t else None
+                  | None => xreplay ws' owners t
+                  end
+              end
+          end
+      end
+  end.
+
+Definition xfilter (r : nat) (tr : list xobs) : list obs :=
+  flat_map (fun x => match x with XO r' _ o => if Nat.eqb r (N.to_nat r') then [o] else [] end) tr.
+
+Fixpoint xfinal (i : nat) (rels : list xrel) (ws : list rrun) (tr : list xobs) : bool :=
+  match rels, ws with
+  | [], [] => true
+  | XR m tx rx sul sud sdl sdd :: rt, w :: wt =>
+      final_ok m (xfilter i tr) true tx rx sul sud sdl sdd (rs w) (rev (racc w)) && xfinal (S i) rt wt tr
+  | _, _ => false
+  end.
+
 Inductive case :=
-| CRelay (m : mode) (tr : list obs) (complete : bool) (tx rx : N) (su_len su_dg sd_len sd_dg : N).
+| CRelay (m : mode) (tr : list obs) (complete : bool) (tx rx : N) (su_len su_dg sd_len sd_dg : N)
+| CXRelay (rels : list xrel) (tr : list xobs).
 
 Definition check (c : case) : bool :=
   match c with
   | CRelay m tr complete tx rx sul sud sdl sdd =>
       match replay ((0, 0), (0, 0)) (relay_init m) tr [] with
       | None => false
-      | Some (s, full) =>
-          contig Up 0 tr && contig Down 0 tr &&
-          monitor m full &&
-          (sTx s =? tx) && (sRx s =? rx) &&
-          (blen (snkb Up full) =? sul) && ((2 * SmallChunk <? sul) || (dg32 (snkb Up full) =? sud)) &&
-          (blen (snkb Down full) =? sdl) && ((2 * SmallChunk <? sdl) || (dg32 (snkb Down full) =? sdd)) &&
-          (* a complete log ends with the parent done and both loops finished or about to send *)
-          (negb complete ||
-           (closeconn_ok full &&
-            match par s with QDone => true | _ => false end &&
-            match pU s with PRet _ | PDone _ => true | _ => false end &&
-            match pD s with PRet _ | PDone _ => true | _ => false end))
+      | Some (s, full) => final_ok m tr complete tx rx sul sud sdl sdd s full
+      end
+  | CXRelay rels tr =>
+      match xreplay (map (fun x => match x with XR m _ _ _ _ _ _ => mkRR ((0, 0), (0, 0)) (relay_init m) [] end) rels) [] tr with
+      | None => false
+      | Some ws => xfinal 0 rels ws tr
       end
   end.
 
